@@ -2,8 +2,10 @@
    src/config.rs: HedgeDelay::get_delay) at poll granularity, together with the tokio
    pieces it is built from: an mpsc channel of (attempt, result), tokio::spawn'ed attempt
    tasks (run eagerly when the harness yields, i.e. right after the event that spawned or
-   unblocked them), time::sleep, and a biased select!.
-   Executable; no proofs here.  Time unit: milliseconds. *)
+   unblocked them), time::sleep, and a biased select!.  The inner service may apply
+   back-pressure to its clones: a hedge attempt task first waits until its own clone is ready
+   (scripted), and only then makes its inner call; the primary runs on the instance the caller
+   polled ready.  Executable; no proofs here.  Time unit: milliseconds. *)
 From TR Require Import Lib.Base.
 
 Inductive outcome := OOk | OErr | OPanic.
@@ -17,7 +19,9 @@ Inductive phase :=
 
 Inductive delay_cfg := Fixed (d : Z) | Immediate | Dynamic (ds : list Z).
 
-Record cfg := { maxa : nat; dcfg : delay_cfg }.
+(* gated = the inner service's clones are not ready until the script says so (environment,
+   not part of HedgeConfig); otherwise every clone is ready at once *)
+Record cfg := { maxa : nat; dcfg : delay_cfg; gated : bool }.
 
 (* HedgeDelay::get_delay(k), k >= 1, in ms (a Duration is never negative) *)
 Definition delay (c : cfg) (k : nat) : Z :=
@@ -42,61 +46,90 @@ Record call := mkCall {
   perr : option Z;            (* primary_error *)
   dline : Z;                  (* deadline of delay_fut *)
   queue : list item;          (* contents of the mpsc channel, FIFO *)
-  starts : list Z;            (* start instant of inner call k (= attempt k) at position k *)
-  gate : nat -> option outcome;   (* scripted completion of attempt k (may precede its start) *)
+  launch : list Z;            (* instant at which attempt task k ran for the first time, at position k *)
+  waiting : list nat;         (* hedge tasks suspended in poll_fn(|cx| svc.poll_ready(cx)) *)
+  rdy : nat -> bool;          (* scripted readiness of the clone used by hedge attempt k *)
+  starts : list (nat * Z);    (* the n-th inner call: (attempt task that made it, instant), at position n *)
+  gate : nat -> option outcome;   (* scripted completion of the n-th inner call (may precede its start) *)
   woken : bool;               (* wake flag of the call future's waker *)
   dlog : list (item * Z);     (* ghost: every message sent successfully, with its instant *)
   cons : list item;           (* ghost: messages the call future has taken out of the channel *)
   res : option (Z * Z * Z)    (* ghost: (result code, value, instant) once resolved *)
 }.
 
-Definition init_call : call :=
-  mkCall Created 0 0 0 None 0 [] [] (fun _ => None) false [] [] None.
+Definition init_call (c : cfg) : call :=
+  mkCall Created 0 0 0 None 0 [] [] [] (fun _ => negb (gated c)) [] (fun _ => None) false [] [] None.
 
-(* value carried by the response / error of attempt k of call i *)
-Definition val (i k : nat) : Z := 16 * Z.of_nat i + Z.of_nat k.
+(* value carried by the response / error of the n-th inner call of call i *)
+Definition val (i n : nat) : Z := 16 * Z.of_nat i + Z.of_nat n.
 
 Definition is_some {A} (o : option A) : bool := match o with Some _ => true | None => false end.
 
 (* Drain phase: every sender is gone (the future dropped its own tx; every spawned task has
-   run and finished, by sending or by panicking) *)
+   run, is not waiting for readiness any more, and has finished, by sending or by panicking) *)
 Definition closed (x : call) : bool :=
-  Nat.eqb (length (starts x)) (sp x) && forallb (fun k => is_some (gate x k)) (seq 0 (sp x)).
+  Nat.eqb (length (launch x)) (sp x) &&
+  match waiting x with [] => true | _ => false end &&
+  forallb (fun n => is_some (gate x n)) (seq 0 (length (starts x))).
 
-(* attempt k's task finishes with outcome o: send (k, result) unless it panicked; the send
-   fails silently when the receiver is gone *)
-Definition finish (i : nat) (now : Z) (x : call) (k : nat) (o : outcome) : call :=
+(* attempt task k, whose inner call is the n-th one, finishes with outcome o: send (k, result)
+   unless it panicked; the send fails silently when the receiver is gone *)
+Definition finish (i : nat) (now : Z) (x : call) (k n : nat) (o : outcome) : call :=
   match ph x with
   | Latency | Drain =>
     match o with
     | OPanic =>
       (* no message; in the drain phase the last sender going away wakes the receiver *)
       if match ph x with Drain => closed x | _ => false end
-      then mkCall (ph x) (t0 x) (sp x) (errs x) (perr x) (dline x) (queue x) (starts x) (gate x)
-                  true (dlog x) (cons x) (res x)
+      then mkCall (ph x) (t0 x) (sp x) (errs x) (perr x) (dline x) (queue x) (launch x) (waiting x)
+                  (rdy x) (starts x) (gate x) true (dlog x) (cons x) (res x)
       else x
     | _ =>
-      let m : item := (k, match o with OOk => true | _ => false end, val i k) in
-      mkCall (ph x) (t0 x) (sp x) (errs x) (perr x) (dline x) (queue x ++ [m]) (starts x) (gate x)
-             true (dlog x ++ [(m, now)]) (cons x) (res x)
+      let m : item := (k, match o with OOk => true | _ => false end, val i n) in
+      mkCall (ph x) (t0 x) (sp x) (errs x) (perr x) (dline x) (queue x ++ [m]) (launch x) (waiting x)
+             (rdy x) (starts x) (gate x) true (dlog x ++ [(m, now)]) (cons x) (res x)
     end
   | _ => x
   end.
 
-(* the task of the next attempt (number = length starts) runs for the first time: readiness of
-   its clone (the gated inner service is always ready), inner.call, and, if the script has
-   completed that call already, the result at once *)
-Definition start_attempt (i : nat) (now : Z) (x : call) : call :=
-  let k := length (starts x) in
-  let x1 := mkCall (ph x) (t0 x) (sp x) (errs x) (perr x) (dline x) (queue x) (starts x ++ [now])
-                   (gate x) (woken x) (dlog x) (cons x) (res x) in
-  match gate x k with
-  | Some o => finish i now x1 k o
+(* attempt task k makes its inner call (the next one, number = length starts) and, if the
+   script has completed that call already, gets the result at once *)
+Definition call_inner (i : nat) (now : Z) (x : call) (k : nat) : call :=
+  let n := length (starts x) in
+  let x1 := mkCall (ph x) (t0 x) (sp x) (errs x) (perr x) (dline x) (queue x) (launch x) (waiting x)
+                   (rdy x) (starts x ++ [(k, now)]) (gate x) (woken x) (dlog x) (cons x) (res x) in
+  match gate x n with
+  | Some o => finish i now x1 k n o
   | None => x1
   end.
 
+(* the next attempt task (number = length launch) runs for the first time: the primary calls
+   the instance that was polled ready; a hedge asks its own clone for readiness first and is
+   suspended if the clone is not ready *)
+Definition launch_task (i : nat) (now : Z) (x : call) : call :=
+  let k := length (launch x) in
+  if Nat.eqb k 0 || rdy x k then
+    call_inner i now
+      (mkCall (ph x) (t0 x) (sp x) (errs x) (perr x) (dline x) (queue x) (launch x ++ [now]) (waiting x)
+              (rdy x) (starts x) (gate x) (woken x) (dlog x) (cons x) (res x)) k
+  else
+    mkCall (ph x) (t0 x) (sp x) (errs x) (perr x) (dline x) (queue x) (launch x ++ [now]) (waiting x ++ [k])
+           (rdy x) (starts x) (gate x) (woken x) (dlog x) (cons x) (res x).
+
 Fixpoint run_tasks (i : nat) (now : Z) (n : nat) (x : call) : call :=
-  match n with O => x | S m => run_tasks i now m (start_attempt i now x) end.
+  match n with O => x | S m => run_tasks i now m (launch_task i now x) end.
+
+Definition mem (k : nat) (l : list nat) : bool := existsb (Nat.eqb k) l.
+Definition remove_id (k : nat) (l : list nat) : list nat := filter (fun j => negb (Nat.eqb j k)) l.
+
+(* the script makes the clone of hedge attempt k ready: a task suspended on it resumes and
+   makes its inner call (whatever has become of the call future: tasks are detached) *)
+Definition ready_call (i : nat) (now : Z) (x : call) (k : nat) : call :=
+  if rdy x k then x else
+  let x1 := mkCall (ph x) (t0 x) (sp x) (errs x) (perr x) (dline x) (queue x) (launch x)
+                   (remove_id k (waiting x)) (fun j => if Nat.eqb j k then true else rdy x j)
+                   (starts x) (gate x) (woken x) (dlog x) (cons x) (res x) in
+  if mem k (waiting x) then call_inner i now x1 k else x1.
 
 (* what the receive side of one poll does with the queued messages *)
 Inductive cres :=
@@ -138,15 +171,15 @@ Fixpoint fire (c : cfg) (now : Z) (fuel : nat) (s : nat) (dl : Z) : nat * Z :=
   end.
 
 Definition resolve (now : Z) (x : call) (r v : Z) (cs rest : list item) (e : nat) (pe : option Z) : call :=
-  mkCall Done (t0 x) (sp x) e pe (dline x) rest (starts x) (gate x) false (dlog x) cs
-         (Some (r, v, now)).
+  mkCall Done (t0 x) (sp x) e pe (dline x) rest (launch x) (waiting x) (rdy x) (starts x) (gate x) false
+         (dlog x) cs (Some (r, v, now)).
 
 Definition poll_latency (c : cfg) (now : Z) (x : call) : call * Z * Z :=
   match consume_lat (maxa c) (queue x) (cons x) (errs x) (perr x) with
   | CDone r v cs rest e pe => (resolve now x r v cs rest e pe, r, v)
   | CCont cs e pe =>
     let '(s, dl) := fire c now (maxa c) (sp x) (dline x) in
-    (mkCall Latency (t0 x) s e pe dl [] (starts x) (gate x) false (dlog x) cs (res x), 0, 0)
+    (mkCall Latency (t0 x) s e pe dl [] (launch x) (waiting x) (rdy x) (starts x) (gate x) false (dlog x) cs (res x), 0, 0)
   end.
 
 Definition poll_drain (now : Z) (x : call) : call * Z * Z :=
@@ -158,16 +191,16 @@ Definition poll_drain (now : Z) (x : call) : call * Z * Z :=
       | Some ev => (resolve now x 3 ev cs [] e pe, 3, ev)
       | None => (resolve now x 5 0 cs [] e pe, 5, 0)   (* `.expect("at least one error should exist")` *)
       end
-    else (mkCall Drain (t0 x) (sp x) e pe (dline x) [] (starts x) (gate x) false (dlog x) cs (res x), 0, 0)
+    else (mkCall Drain (t0 x) (sp x) e pe (dline x) [] (launch x) (waiting x) (rdy x) (starts x) (gate x) false (dlog x) cs (res x), 0, 0)
   end.
 
 (* first poll: spawn the primary, choose the mode *)
 Definition begin (c : cfg) (now : Z) (x : call) : call :=
   if (1 <? maxa c)%nat then
     if latency_mode c
-    then mkCall Latency now 1 0 None (now + delay c 1) (queue x) (starts x) (gate x) false (dlog x) (cons x) (res x)
-    else mkCall Drain now (maxa c) 0 None 0 (queue x) (starts x) (gate x) false (dlog x) (cons x) (res x)
-  else mkCall Drain now 1 0 None 0 (queue x) (starts x) (gate x) false (dlog x) (cons x) (res x).
+    then mkCall Latency now 1 0 None (now + delay c 1) (queue x) (launch x) (waiting x) (rdy x) (starts x) (gate x) false (dlog x) (cons x) (res x)
+    else mkCall Drain now (maxa c) 0 None 0 (queue x) (launch x) (waiting x) (rdy x) (starts x) (gate x) false (dlog x) (cons x) (res x)
+  else mkCall Drain now 1 0 None 0 (queue x) (launch x) (waiting x) (rdy x) (starts x) (gate x) false (dlog x) (cons x) (res x).
 
 (* result codes: 0 pending, 1 Ok v, 3 Err(AllAttemptsFailed v), 5 panicked, 9 nothing to poll
    (2 would be Err(Inner), which execute_with_hedging never produces) *)
@@ -184,13 +217,13 @@ Definition poll_body (c : cfg) (now : Z) (x : call) : call * Z * Z :=
 (* one poll of the call future followed by the runtime running the tasks it spawned *)
 Definition poll_call (c : cfg) (i : nat) (now : Z) (x : call) : call * Z * Z :=
   let '(x1, r, v) := poll_body c now x in
-  (run_tasks i now (sp x1 - length (starts x1)) x1, r, v).
+  (run_tasks i now (sp x1 - length (launch x1)) x1, r, v).
 
 Definition drop_call (x : call) : call :=
   match ph x with
   | Created | Latency | Drain =>
-    mkCall Dropped (t0 x) (sp x) (errs x) (perr x) (dline x) (queue x) (starts x) (gate x) false
-           (dlog x) (cons x) (res x)
+    mkCall Dropped (t0 x) (sp x) (errs x) (perr x) (dline x) (queue x) (launch x) (waiting x) (rdy x)
+           (starts x) (gate x) false (dlog x) (cons x) (res x)
   | Done | Dropped => x
   end.
 
@@ -201,16 +234,20 @@ Definition timer_fires (c : cfg) (now t1 : Z) (x : call) : bool :=
   end.
 
 Definition advance_call (c : cfg) (now t1 : Z) (x : call) : call :=
-  mkCall (ph x) (t0 x) (sp x) (errs x) (perr x) (dline x) (queue x) (starts x) (gate x)
-         (woken x || timer_fires c now t1 x) (dlog x) (cons x) (res x).
+  mkCall (ph x) (t0 x) (sp x) (errs x) (perr x) (dline x) (queue x) (launch x) (waiting x) (rdy x)
+         (starts x) (gate x) (woken x || timer_fires c now t1 x) (dlog x) (cons x) (res x).
 
-Definition complete_call (i : nat) (now : Z) (x : call) (k : nat) (o : outcome) : call :=
-  match gate x k with
+Definition complete_call (i : nat) (now : Z) (x : call) (n : nat) (o : outcome) : call :=
+  match gate x n with
   | Some _ => x
   | None =>
-    let x1 := mkCall (ph x) (t0 x) (sp x) (errs x) (perr x) (dline x) (queue x) (starts x)
-                     (fun j => if Nat.eqb j k then Some o else gate x j) (woken x) (dlog x) (cons x) (res x) in
-    if (k <? length (starts x))%nat then finish i now x1 k o else x1
+    let x1 := mkCall (ph x) (t0 x) (sp x) (errs x) (perr x) (dline x) (queue x) (launch x) (waiting x)
+                     (rdy x) (starts x) (fun j => if Nat.eqb j n then Some o else gate x j) (woken x)
+                     (dlog x) (cons x) (res x) in
+    match nth_error (starts x) n with
+    | Some (k, _) => finish i now x1 k n o
+    | None => x1
+    end
   end.
 
 (* ---- the system: any number of independent hedged calls on clones of one service ---- *)
@@ -218,14 +255,15 @@ Inductive ev :=
 | Poll (i : nat)
 | Drop (i : nat)
 | Advance (d : Z)
-| Complete (i k : nat) (o : outcome).
+| Complete (i n : nat) (o : outcome)
+| Ready (i k : nat).
 
 Record st := mkSt { now : Z; calls : nat -> call }.
 
 Definition upd {A} (f : nat -> A) (i : nat) (v : A) : nat -> A :=
   fun j => if Nat.eqb j i then v else f j.
 
-Definition init : st := mkSt 0 (fun _ => init_call).
+Definition init (c : cfg) : st := mkSt 0 (fun _ => init_call c).
 
 Record obs := { r : Z; v : Z }.
 Definition no_obs : obs := {| r := -1; v := 0 |}.
@@ -239,17 +277,20 @@ Definition step (c : cfg) (s : st) (e : ev) : st * obs :=
   | Advance d =>
     let t1 := now s + Z.max 0 d in
     (mkSt t1 (fun j => advance_call c (now s) t1 (calls s j)), no_obs)
-  | Complete i k o => (mkSt (now s) (upd (calls s) i (complete_call i (now s) (calls s i) k o)), no_obs)
+  | Complete i n o => (mkSt (now s) (upd (calls s) i (complete_call i (now s) (calls s i) n o)), no_obs)
+  | Ready i k => (mkSt (now s) (upd (calls s) i (ready_call i (now s) (calls s i) k)), no_obs)
   end.
 
 Definition step_st (c : cfg) (s : st) (e : ev) : st := fst (step c s e).
 
 (* ---- script interface ----
    script = [max; mode; ncalls; nd; d_1 .. d_nd; (op a b)* ]
-     mode 0 = Fixed d_1, 1 = Immediate, 2 = Dynamic (attempt k -> d_k, 0 beyond nd)
-     op 1 = Poll a, 2 = Drop a, 3 = Advance a ms, 4 = Complete (a / 16) (a mod 16) b (b: 0 ok 1 err 2 panic)
-   trace = per event [r; v; ns; wake mask; in-flight; now]
-     ns = (inner calls started in this event by call i) * 32^i *)
+     mode mod 4: 0 (or 3) = Fixed d_1, 1 = Immediate, 2 = Dynamic (attempt k -> d_k, 0 beyond nd);
+     (mode / 4) mod 2 = 1: gated readiness of clones
+     op 1 = Poll a, 2 = Drop a, 3 = Advance a ms, 4 = Complete (a / 16) (a mod 16) b (b: 0 ok 1 err 2 panic),
+     5 = Ready (a / 16) (a mod 16)
+   trace = per event [r; v; ns; nl; wake mask; in-flight; now]
+     ns = (inner calls started in this event by call i) * 32^i, nl = same for hedge tasks launched *)
 Definition clamp (lo hi z : Z) : Z := Z.max lo (Z.min hi z).
 
 Definition outcome_of (z : Z) : outcome :=
@@ -263,7 +304,10 @@ Definition ev_of (ncalls : nat) (t : Z * Z * Z) : option ev :=
   if op =? 3 then Some (Advance (clamp 0 100000 a)) else
   if op =? 4 then
     (if (0 <=? a) && (Z.to_nat (a / 16) <? ncalls)%nat
-     then Some (Complete (Z.to_nat (a / 16)) (Z.to_nat (a mod 16)) (outcome_of b)) else None)
+     then Some (Complete (Z.to_nat (a / 16)) (Z.to_nat (a mod 16)) (outcome_of b)) else None) else
+  if op =? 5 then
+    (if (0 <=? a) && (Z.to_nat (a / 16) <? ncalls)%nat
+     then Some (Ready (Z.to_nat (a / 16)) (Z.to_nat (a mod 16))) else None)
   else None.
 
 Fixpoint evs_of (ncalls : nat) (l : list (Z * Z * Z)) : list ev :=
@@ -289,12 +333,17 @@ Definition new_starts (s s' : st) (total : nat) : Z :=
   fold_left (fun acc j => acc + Z.of_nat (length (starts (calls s' j)) - length (starts (calls s j)))
                                 * 32 ^ Z.of_nat j) (seq 0 total) 0.
 
+(* hedge tasks (k >= 1) launched in this event *)
+Definition new_launches (s s' : st) (total : nat) : Z :=
+  fold_left (fun acc j => acc + Z.of_nat (length (tl (launch (calls s' j))) - length (tl (launch (calls s j))))
+                                * 32 ^ Z.of_nat j) (seq 0 total) 0.
+
 Fixpoint run_evs (c : cfg) (total : nat) (s : st) (evs : list ev) : list Z :=
   match evs with
   | [] => []
   | e :: rest =>
     let '(s', o) := step c s e in
-    [r o; v o; new_starts s s' total; wake_mask s' total; inflight s' total; now s']
+    [r o; v o; new_starts s s' total; new_launches s s' total; wake_mask s' total; inflight s' total; now s']
       ++ run_evs c total s' rest
   end.
 
@@ -302,12 +351,14 @@ Definition cfg_of (sc : list Z) : cfg :=
   let nd := Z.to_nat (clamp 0 16 (zn sc 3)) in
   let ds := map (clamp 0 100000) (firstn nd (skipn 4 sc)) in
   {| maxa := Nat.max 1 (Z.to_nat (clamp 0 16 (zn sc 0)));     (* builder: n.max(1) *)
-     dcfg := if zn sc 1 =? 1 then Immediate
-             else if zn sc 1 =? 2 then Dynamic ds
-             else Fixed (nth 0 ds 0) |}.
+     dcfg := let m := clamp 0 7 (zn sc 1) mod 4 in
+             if m =? 1 then Immediate
+             else if m =? 2 then Dynamic ds
+             else Fixed (nth 0 ds 0);
+     gated := (clamp 0 7 (zn sc 1) / 4) mod 2 =? 1 |}.
 
 Definition run_script (sc : list Z) : list Z :=
   let c := cfg_of sc in
   let ncalls := Z.to_nat (clamp 0 4 (zn sc 2)) in
   let nd := Z.to_nat (clamp 0 16 (zn sc 3)) in
-  run_evs c ncalls init (evs_of ncalls (chunk3 (skipn (4 + nd) sc))).
+  run_evs c ncalls (init c) (evs_of ncalls (chunk3 (skipn (4 + nd) sc))).
